@@ -11,6 +11,12 @@ S2  scenarios: (a) one per transition of a smaller instance of the same spec, (b
 S3  harness/cmd/c16 builds the chains from recording slots on the real base.SlotChain and enters through
     api.Entry(WithSlotChain); records call logs, results, and every block error handed out, after every operation.
 S4  EntryChain_Trace.tla (TLC) judges every record with the operators of EntryChainOps.tla.
+
+Several chains alive at once (EntryChains.tla, trace mode "multi"): S1 also checks the multi-chain model (chain = map chain id ->
+slot lists; chains made by the constructors new / default / global and extended afterwards in any interleaving; invariants
+Isolation, EntryOwn, ExitOwn, ToldOncePerChain) and requires the spec-level mutant "the default chains share their slot lists" to be
+rejected; S2 adds scenarios of that model (transition cover, TLC simulation, seeded random, directed) in which the driver obtains the
+chains from base.NewSlotChain / api.BuildDefaultSlotChain / api.GlobalSlotChain; S4 judges every entry against ITS chain.
 """
 import json, os, sys
 import vlib, eclib
@@ -141,10 +147,210 @@ def directed(first_tr):
     return out
 
 
+# ---------------------------------------------------------------------------------- several chains alive at once
+MULTI_DEFAULTS = dict(Ctors={'new', 'default', 'global'}, SlotKinds={'rule', 'stat'}, Orders={1, 2}, PreBehs={'pass'},
+                      RuleBehs={'pass', 'block'}, StatBehs={'pass'}, DefaultChain='<-MCDefaultChain', Scripts={'chain'},
+                      MaxChains=2, MaxSlots=3, MaxEntries=2, MaxLive=2, MaxOps=8, Mutant='')
+MULTI_INVS = 'TypeOK ChainsSorted Isolation EntryOwn ExitOwn ToldOncePerChain'
+# order values around the built-in slots of a default chain (1000 .. 5000): behind all of them, in front, in between, on them
+MULTI_POOLS = [[7000], [7000, 7000, 8000], [10, 7000], [10, 20], [500, 2500, 6000], [1000, 3000, 5000], [0, 2147483647], [1, 2]]
+
+
+def multi_cfg(invs=MULTI_INVS, emit=False, **over):
+    p = dict(MULTI_DEFAULTS)
+    p.update(over)
+    lines = ['SPECIFICATION Spec', 'CONSTANTS']
+    for k, v in p.items():
+        lines.append('  %s <- %s' % (k, v[2:]) if isinstance(v, str) and v.startswith('<-') else '  %s = %s' % (k, eclib.tla(v)))
+    lines.append('VIEW view')
+    lines.append('ACTION_CONSTRAINT Emit' if emit else 'INVARIANTS ' + invs)
+    lines.append('CHECK_DEADLOCK FALSE')
+    return '\n'.join(lines) + '\n'
+
+
+def multi_model_check(c, thorough):
+    """S1 for EntryChains.tla: the bounded model, and the spec-level mutant (must be rejected, by the state invariant and by the
+    observable ones alone)"""
+    over = dict(MaxChains=3, MaxOps=9) if thorough else {}
+    r = c.model_check('EntryChains_MC', cfg_text=multi_cfg(**over), workers=8, timeout=1500)
+    if not r.completed:
+        c.inconclusive.append('EntryChains.tla: %s - the multi-chain model violates its own property' % (r.violated or 'deadlock'))
+    rej = []
+    for invs in ('TypeOK Isolation', 'TypeOK EntryOwn', 'TypeOK ToldOncePerChain', 'TypeOK ExitOwn'):
+        m = c.tlc('EntryChains_MC', cfg_text=multi_cfg(invs=invs, Mutant='shared'), workers=4, timeout=600, count=False)
+        if m.error:
+            raise MachineryError('TLC failed on spec mutant shared: %s\n%s' % (m.error, m.out[-1500:]))
+        c.cov['tlc_runs'].append(dict(module='EntryChains_MC', cfg='mutant shared (%s)' % invs, generated=m.generated, distinct=m.distinct,
+                                      depth=m.depth, wall_s=round(m.wall, 1), result=str(m.violated or 'NOT REJECTED')))
+        if m.completed or not m.violated:
+            c.inconclusive.append('spec-level mutant "default chains share their slot lists" is NOT rejected by %s' % invs)
+        else:
+            rej.append(invs.split()[1])
+    c.cov['spec_mutant_shared_rejected_by'] = rej
+    c.log('S1 spec-level mutant "the chains of the default constructors share their slot lists" rejected by: %s' % ', '.join(rej))
+
+
+def decorate_multi(hist, tr, rng):
+    """a history of EntryChains (mchain / slot / entry / exit) as a driver scenario, followed by an entry through every chain and
+    the exits of everything in random order"""
+    s = [dict(op='new', tr=tr, mode='multi', t=100, nodes=[])]
+    nent, cids, done = 0, [], set()
+    for o in hist:
+        o = dict(o)
+        if o['op'] == 'mchain':
+            cids.append(o['c'])
+        if o['op'] == 'slot' and o['beh'] == 'block':
+            o['bm'] = rng.choices(BMS, BMW)[0]
+        if o['op'] == 'entry':
+            nent += 1
+        if o['op'] == 'exit':
+            done.add(o['id'])
+        s.append(o)
+    return multi_suffix(s, nent, cids, done, rng)
+
+
+def multi_suffix(s, nent, cids, done, rng):
+    order = list(cids)
+    rng.shuffle(order)
+    for cid in order:
+        s.append(dict(op='entry', c=cid, res='r1', b=1, inb=False, so='chain', xh=''))
+        nent += 1
+    ids = list(range(1, nent + 1))
+    rng.shuffle(ids)
+    for i in ids:
+        s.append(dict(op='exit', id=i, e=rng.choice(['', '', 'x']) if i not in done else ''))
+        done.add(i)
+        if rng.random() < 0.2:
+            s.append(dict(op='exit', id=rng.choice(sorted(done)), e=''))
+    return s
+
+
+def random_multi(c, n, first_tr):
+    """seeded random: 2..4 chains from the three constructors, slots added to them in interleaved order (before, between and after
+    entries, chains made late), entries through each of them"""
+    rng = c.rng
+    out = []
+    for i in range(n):
+        tr = first_tr + i
+        s = [dict(op='new', tr=tr, mode='multi', t=rng.choice([1, 100, 499]), nodes=[])]
+        pending = []
+        for cid in range(1, rng.choice([2, 2, 3, 3, 4]) + 1):
+            kind = rng.choices(['new', 'default', 'global'], [2, 5, 2])[0]
+            if kind == 'global' and any(k == 'global' for _, k in pending):
+                kind = 'default'
+            pending.append((cid, kind))
+        pool = rng.choice(MULTI_POOLS)
+        made, kind_of, nent, live, done = [], {}, 0, [], set()
+
+        def make():
+            cid, kind = pending.pop(0)
+            made.append(cid)
+            kind_of[cid] = kind
+            s.append(dict(op='mchain', c=cid, kind=kind))
+
+        make()
+        if rng.random() < 0.7:
+            make()
+        for step in range(rng.randint(6, 16)):
+            x = rng.random()
+            if pending and x < 0.15:
+                make()
+            elif x < 0.6:
+                cid = rng.choice(made)
+                own = kind_of[cid] == 'new'        # scripted panics in prepare / statistic slots only on chains without built-in slots
+                k = rng.choices(['pre', 'rule', 'stat'], [1, 3, 3])[0]
+                if k == 'pre':
+                    beh = rng.choices(['pass', 'panic'], [8, 1 if own else 0])[0]
+                elif k == 'rule':
+                    beh = rng.choices(['pass', 'ctx', 'nil', 'wait', 'block', 'script', 'panic'], [3, 2, 2, 1, 4, 2, 1])[0]
+                else:
+                    beh = rng.choices(['pass', 'panic', 'panicC'], [10, 1 if own else 0, 1 if own else 0])[0]
+                sl = dict(op='slot', c=cid, k=k, ord=rng.choice(pool), beh=beh)
+                if beh in ('block', 'script'):
+                    sl['bm'] = rng.choices(BMS, BMW)[0]
+                s.append(sl)
+            elif x < 0.87 or not live:
+                nent += 1
+                s.append(dict(op='entry', c=rng.choice(made), res=rng.choice(['r1', 'r2']), b=rng.choice([1, 1, 3]), inb=False,
+                              so=rng.choices(['chain', 'pass', 'block'], [4, 1, 2])[0], xh=rng.choices(['', 'ok'], [5, 1])[0]))
+                live.append(nent)
+            else:
+                j = rng.choice(live)
+                s.append(dict(op='exit', id=j, e=rng.choice(['', 'x']) if j not in done else ''))
+                done.add(j)
+        while pending:
+            make()
+        out.append(multi_suffix(s, nent, made, done, rng))
+    return out
+
+
+def directed_multi(first_tr):
+    """chains from the default constructors with DIFFERENT slots of their own at the same position / in front of the built-in ones"""
+    out, tr = [], first_tr
+    N = lambda: dict(op='new', tr=0, mode='multi', t=100, nodes=[])
+    C = lambda c, kind: dict(op='mchain', c=c, kind=kind)
+    S = lambda c, k, o, beh, **kw: dict(dict(op='slot', c=c, k=k, ord=o, beh=beh), **kw)
+    E = lambda c: dict(op='entry', c=c, res='r1', b=1, inb=False, so='chain', xh='')
+    X = lambda i: dict(op='exit', id=i, e='')
+    for ka, kb in (('default', 'default'), ('default', 'global'), ('global', 'default'), ('new', 'default'), ('new', 'new')):
+        # each chain gets a rule-check and a statistic slot of its own behind the built-in ones: A's blocks, B's passes
+        out.append([N(), C(1, ka), S(1, 'rule', 7000, 'block', bm='fresh'), S(1, 'stat', 7000, 'pass'),
+                    C(2, kb), S(2, 'rule', 7000, 'pass'), S(2, 'stat', 7000, 'pass'), E(1), E(2), X(2), E(1), E(2), X(4)])
+        # the same, added in interleaved order
+        out.append([N(), C(1, ka), C(2, kb), S(1, 'rule', 7000, 'block', bm='ctx'), S(2, 'rule', 7000, 'nil'), S(1, 'stat', 7000, 'pass'),
+                    S(2, 'stat', 7000, 'pass'), E(2), E(1), S(1, 'rule', 8000, 'pass'), S(2, 'rule', 6000, 'block', bm='fresh'), E(1), E(2), X(1)])
+        # a private chain with slots IN FRONT of the built-in ones; the other chain and a chain made afterwards have none
+        out.append([N(), C(1, kb), S(1, 'stat', 7000, 'pass'), E(1), C(2, ka), S(2, 'rule', 10, 'block', bm='fresh'), S(2, 'stat', 10, 'pass'),
+                    E(2), E(1), C(3, 'default'), S(3, 'stat', 20, 'pass'), E(3), E(1), E(2), X(1), X(3), X(4), X(5)])
+    for s in out:
+        s[0]['tr'] = tr
+        tr += 1
+    return out
+
+
+def binding_selftest_multi(c, tp):
+    """multi-chain traces: attribute one entry that called recording slots to ANOTHER chain of its trace: must be rejected"""
+    groups = []
+    for e in (json.loads(l) for l in open(tp)):
+        if e['op'] == 'new':
+            groups.append([])
+        groups[-1].append(e)
+    out, want = [], set()
+    for gl in groups:
+        if len(want) >= 30:
+            break
+        ids, cands = {}, []
+        for i, e in enumerate(gl):
+            if e['op'] == 'mchain':
+                ids.setdefault(e['c'], set())
+            if e['op'] == 'slot':
+                ids[e['c']].add(e['id'])
+            if e['op'] == 'entry' and e['calls']:
+                # another chain (made before the entry) that does not hold every slot the entry called
+                cands += [(i, d) for d in sorted(ids) if d != e['c'] and any(x['id'] not in ids[d] for x in e['calls'])]
+        if not cands:
+            continue
+        i, d = c.rng.choice(cands)
+        gl[i]['c'] = d
+        want.add(gl[0]['tr'])
+        out += gl
+    if not want:
+        raise MachineryError('binding self-test (several chains): no trace to corrupt')
+    got = validate_lines(c, out, 'corrupt-multi')
+    if got != want:
+        raise MachineryError('binding self-test (several chains) failed: corrupted traces %s, rejected %s' % (sorted(want), sorted(got)))
+    c.cov['binding_selftest_multi'] = '%d traces with an entry attributed to another chain, all rejected' % len(want)
+    c.log('binding self-test: ' + c.cov['binding_selftest_multi'])
+
+
 def nontrivial(s):
     """a chain in which the order clause, the short-circuit or the fail-open clause is actually exercised"""
     if not any(o['op'] == 'entry' for o in s):
         return False
+    if s[0].get('mode') == 'multi':
+        # several chains: at least two chains carry recording slots of their own and are entered
+        with_slots = {o['c'] for o in s if o['op'] == 'slot'}
+        return len(with_slots & {o['c'] for o in s if o['op'] == 'entry'}) >= 2
     by = {}
     for o in s:
         if o['op'] == 'slot':
@@ -309,6 +515,7 @@ def check(c, tier, replay):
                                           XHs={'', 'panic'}, MaxEntries=2))
         if not r.completed:
             c.inconclusive.append('EntryChain.tla (chain instance 2): %s' % (r.violated or 'deadlock'))
+    multi_model_check(c, thorough)
     c.cov['exhaustive'] = True
     # S2 ---------------------------------------------------------------------------------
     scns, tr = [], 0
@@ -342,9 +549,36 @@ def check(c, tier, replay):
     tr += nrand
     seeded = directed(tr + 1)
     tr += len(seeded)
+    # several chains alive at once: transition cover of a small instance of EntryChains, TLC simulation of a larger one, random, directed
+    ms = directed_multi(tr + 1)
+    tr += len(ms)
+    r = c.tlc('EntryChains_MC', cfg_text=multi_cfg(emit=True, MaxSlots=2, MaxEntries=1, MaxOps=6), workers=4, timeout=900, count=False)
+    if r.error:
+        raise MachineryError('scenario generation (several chains) failed: %s\n%s' % (r.error, r.out[-2000:]))
+    keep = maximal(r.json_prints())
+    ncover_multi = len(keep)
+    if len(keep) > (250 if not thorough else 4000):
+        keep = c.rng.sample(keep, 250 if not thorough else 4000)
+    r = c.tlc('EntryChains_MC', workers=1, timeout=900, count=False,
+              cfg_text=multi_cfg(emit=True, SlotKinds={'pre', 'rule', 'stat'}, Orders={1, 2, 3}, RuleBehs={'pass', 'nil', 'ctx', 'block', 'panic'},
+                                 MaxChains=3, MaxSlots=6, MaxEntries=4, MaxLive=3, MaxOps=14),
+              args=['-simulate', 'num=%d' % (100 if not thorough else 1500), '-depth', '15', '-seed', str(c.seed)])
+    if r.error:
+        raise MachineryError('scenario simulation (several chains) failed: %s\n%s' % (r.error, r.out[-2000:]))
+    keep2 = maximal(r.json_prints())
+    if len(keep2) > (250 if not thorough else 4000):
+        keep2 = c.rng.sample(keep2, 250 if not thorough else 4000)
+    for hh in keep + keep2:
+        tr += 1
+        ms.append(decorate_multi(hh, tr, c.rng))
+    nrm = 250 if not thorough else 3000
+    ms += random_multi(c, nrm, tr + 1)
+    tr += nrm
+    c.log('S2 several chains: %d directed, %d of %d transition-cover, %d simulated, %d random scenarios' % (
+        len(directed_multi(0)), len(keep), ncover_multi, len(keep2), nrm))
     # S3 + S4 ----------------------------------------------------------------------------
     allm, allparts = [], []
-    for tag, group in (('directed', seeded), ('tlc', scns), ('rand', rs)):
+    for tag, group in (('directed', seeded), ('tlc', scns), ('rand', rs), ('multi', ms)):
         for i in range(0, len(group), 3000):
             part = group[i:i + 3000]
             mism, tp = run_and_validate(c, drv, part, '%s%d' % (tag, i))
@@ -359,10 +593,12 @@ def check(c, tier, replay):
                 gp = os.path.join(c.scratch, 'good.ndjson')
                 write_ndjson(gp, keepl)
                 binding_selftest(c, gp)
+            if tag == 'multi' and 'binding_selftest_multi' not in c.cov and not mism:
+                binding_selftest_multi(c, tp)
             c.cov['conformance_mismatches'] += len(mism)
             allm += [(tag, m) for m in mism]
             allparts += part
-    for tag in ('directed', 'tlc', 'rand'):
+    for tag in ('directed', 'tlc', 'rand', 'multi'):
         handle_mismatches(c, drv, allparts, [m for t, m in allm if t == tag], tag)
     # free-running goroutines on one chain (repeated, late and SIMULTANEOUS Exit calls of the same entry): every statistic slot
     # is told of completion exactly once per passed entry - judged at quiescence by EntryChain_Trace!TStress
@@ -387,13 +623,17 @@ def check(c, tier, replay):
     c.cov.pop('reported', None)
     if 'binding_selftest' not in c.cov:
         c.inconclusive.append('binding self-test did not run')
-    allscn = seeded + scns + rs
+    allscn = seeded + scns + rs + ms
+    c.cov['multi_chain_scenarios'] = len(ms)
     c.cov['distinct_nontrivial'] = len({json.dumps(s[1:], sort_keys=True) for s in allscn if nontrivial(s)})
     c.cov['rule'] = ('scenarios = one per transition of a bounded chain instance of EntryChain (%d) + TLC random simulation + seeded random '
                      'chains, each followed by traffic that recycles pooled objects; non-trivial = distinct scenario with at least one entry '
-                     'whose chain has two slots of a kind with the same order value, or a blocking slot, or a panicking slot' % cover_n)
+                     'whose chain has two slots of a kind with the same order value, or a blocking slot, or a panicking slot; scenarios with '
+                     'several chains (made by base.NewSlotChain / api.BuildDefaultSlotChain / api.GlobalSlotChain): non-trivial = at least two '
+                     'chains carry recording slots of their own and are entered' % cover_n)
     c.sample(scns[len(scns) // 2][:10])
     c.sample(rs[0][:12])
+    c.sample(ms[-1][:14])
     c.assumptions += ['slot kinds are phases: prepare slots run before rule-check slots before statistic slots (interface documentation of base.SlotChain)',
                       'until the first panic of an Entry the call log is the panic-free one (an implementation cannot foresee a panic); what is called '
                       'after a panic is left open, as is whether completion is announced for an entry admitted through a panic',
